@@ -134,9 +134,13 @@ def jobs(tier, seed):
         out += split_job(dict(case="closure", params=dict(n=4, edges=FOUR["nested"], name="4-nested", checks=["scc", "ref", "solve", "blocks"])), [0, 1])
         out.append(dict(case="closure", params=dict(n=2, edges=[(0, 0), (0, 1), (1, 0)], name="canary", canary=True)))
     else:
-        out += split_job(dict(case="closure", params=dict(n=3, edges=all3, name="all-3-node"), cost=10), [0, 1, 2, 3, 4, 5])
+        # all 3-node graphs: closures, solvers and blocks (the fixed-point equations and closure() are exercised on the sparser skeletons:
+        # on dense 3x3 sub-shapes their normal forms cost ~10 s per obligation)
+        out += split_job(dict(case="closure", params=dict(n=3, edges=all3, name="all-3-node", checks=["scc", "ref", "solve", "blocks"]), cost=10, timeout=2400), [0, 1, 2, 3, 4, 5])
+        out += split_job(dict(case="closure", params=dict(n=3, edges=[(0, 0), (0, 1), (1, 0), (1, 2), (2, 2), (2, 0)], name="3-sparse")), [0])
+        out += split_job(dict(case="closure", params=dict(n=3, edges=[(0, 1), (1, 2), (2, 0), (1, 1), (0, 2), (2, 1)], name="3-sparse-b")), [0])
         for k, e in FOUR.items():
-            out += split_job(dict(case="closure", params=dict(n=4, edges=e, name=f"4-{k}")), [0, 1])
+            out += split_job(dict(case="closure", params=dict(n=4, edges=e, name=f"4-{k}", checks=["scc", "ref", "solve", "closure", "blocks"]), timeout=2400), [0, 1])
         out.append(dict(case="closure", params=dict(n=2, edges=[(0, 0), (0, 1), (1, 0)], name="canary", canary=True)))
     dag3 = [(0, 1), (0, 2), (1, 2)]
     dag4 = [(0, 1), (0, 2), (1, 2), (1, 3), (2, 3), (0, 3)]
